@@ -463,13 +463,25 @@ where
                     *seg_frames = 0;
                 }
             };
+            // A run of consecutive `wait`s is ONE silence: the venue sleeps until absolute deadlines measured
+            // from the start of the silence (`silence_start + sum of the waits so far`). A relative
+            // `sleep(ms)` per `wait` would make n waits last n ms longer than their sum: tokio's timer wheel
+            // rounds every deadline UP to its next millisecond tick, and under the paused clock `now` keeps
+            // the sub-millisecond offset it had when the clock was paused, so every relative sleep lasts
+            // `ms + 1` ticks (as does the validator's own 10 000 ms sleep, armed at the same instant as the
+            // silence starts). With absolute deadlines the whole silence is rounded once, like the
+            // validator's sleep: `wait 5000; wait 4999` ends one tick before the timeout, as `wait 9999` does.
+            let mut silence: Option<(tokio::time::Instant, u64)> = None;
+            const FAR_MS: u64 = 86_400_000 * 365 * 30;
             for it in items {
                 match it {
                     Item::Frame(op, p) => {
+                        silence = None;
                         seg.extend(ws_frame(*op, p));
                         seg_frames += 1;
                     }
                     Item::Invalid => {
+                        silence = None;
                         seg.extend([0x83u8, 0x00]);
                         seg_frames += 1;
                     }
@@ -482,7 +494,10 @@ where
                         if done.get() {
                             break;
                         }
-                        tokio::time::sleep(Duration::from_millis(*ms)).await;
+                        let (start, so_far) = silence.unwrap_or((tokio::time::Instant::now(), 0));
+                        let total = so_far.saturating_add(*ms);
+                        silence = Some((start, total));
+                        tokio::time::sleep_until(start + Duration::from_millis(total.min(FAR_MS))).await;
                         if done.get() {
                             break;
                         }
@@ -803,20 +818,64 @@ fn gen_case(rng: &mut Rng, out: &mut Out, ex: &str, thorough: bool) {
             ops.push(random_op(rng, ex, &entries, fail_pct, other_pct));
         }
     }
+    // a silence that ends just before / just after the 10 s timeout, given as 1-4 consecutive waits of
+    // arbitrary (non-round, possibly zero) lengths
+    if rng.chance(20) {
+        let total = if rng.chance(50) { 9_990 + rng.below(10) } else { 10_001 + rng.below(10) };
+        let parts = 1 + rng.below(4);
+        let mut cuts: Vec<u64> = (1..parts).map(|_| rng.below(total + 1)).collect();
+        cuts.push(0);
+        cuts.push(total);
+        cuts.sort();
+        let pos = rng.below(ops.len() as u64 + 1) as usize;
+        for (k, w) in cuts.windows(2).enumerate() {
+            ops.insert(pos + k, format!("wait {}", w[1] - w[0]));
+        }
+    }
+    let mut lines: Vec<String> = vec![];
     let mut runs = 0;
     let len = ops.len();
     for (k, op) in ops.into_iter().enumerate() {
-        out.line(op);
+        lines.push(op);
         if k + 1 < len && rng.chance(10) && runs < 2 {
             runs += 1;
-            out.line("run");
+            lines.push("run".into());
         }
     }
     // how the stream goes on after the last frame: silence (timeout) or end of stream
     if rng.chance(50) {
-        out.line("wait 12000");
+        lines.push("wait 12000".into());
     }
-    out.line("run");
+    lines.push("run".into());
+    for l in no_exact_deadline(lines) {
+        out.line(l);
+    }
+}
+
+/// No silence may reach the 10 s timeout exactly at the end of one of its waits (the validator's sleep and
+/// the venue's next frame would become ready in the same timer tick): such a wait is lengthened by 1 ms.
+/// `run` lines do not interrupt a silence (every run replays everything so far).
+fn no_exact_deadline(lines: Vec<String>) -> Vec<String> {
+    let mut silence = 0u64;
+    lines
+        .into_iter()
+        .map(|l| {
+            if l == "run" {
+                return l;
+            }
+            match l.strip_prefix("wait ").and_then(|m| m.parse::<u64>().ok()) {
+                Some(ms) => {
+                    let ms = if silence + ms == 10_000 { ms + 1 } else { ms };
+                    silence += ms;
+                    format!("wait {ms}")
+                }
+                None => {
+                    silence = 0;
+                    l
+                }
+            }
+        })
+        .collect()
 }
 
 /// every sequence of at most `max_len` symbols, each followed by end of stream
